@@ -171,6 +171,16 @@ def _c01_released_unread_will_close(f: Failure) -> bool:
     )
 
 
+# ---------------------------------------------------------------------------------- C07 -------
+@finding("C07", "cert-reqs-override-rewrites-shared-caller-context")
+def _c07_shared_context(f: Failure) -> bool:
+    """cert_reqs given for one pool is written into the caller-supplied SSLContext (context.verify_mode = ...); a
+    PoolManager that shares that context with its other pools then derives 'no validation' from it for requests that
+    never asked for it."""
+    o = f["observed"] or {}
+    return f["kind"] == "request-sent-over-unverified-connection" and o.get("shared_caller_context_after_lax_cert_reqs") is True and o.get("route") == "manager-after-lax" and (o.get("det") or {}).get("mode") != "CERT_NONE"
+
+
 # ---------------------------------------------------------------------------------- C15 -------
 @finding("C15", "port-zero-treated-as-default")
 def _c15_port_zero(f: Failure) -> bool:
